@@ -65,6 +65,7 @@ def obligations(tier, seed):
     add('setup/p2sh-empty-push', kind='spend', mut='p2shempty')
     add('setup/witness-v0-31-byte-program', kind='spend', mut='prog31')
     add('setup/taproot-empty-control', kind='spend', mut='ctrl0')
+    for n in (1, 2, 31, 32, 34, 64): add('setup/taproot-control-%d-bytes' % n, kind='spend', mut='ctrl%d' % n)      # 1: (size - 33) % 32 == 0 in unsigned arithmetic (seed C15-1)
     # --- exec leftovers
     for toks in (['OP_CODESEPARATOR'], ['OP_1', 'OP_CODESEPARATOR']): add('exec-then-step/' + ' '.join(toks), kind='execstep', toks=toks)
     # --- kerl
@@ -147,7 +148,7 @@ def run(E, ob):
         if ob['mut'] in ('p2sh19', 'p2shempty'):
             b = C03.build(dict(t='p2sh-p2wpkh', idx=0), None)
         elif ob['mut'] == 'prog31': b = C03.build(dict(t='p2wpkh', idx=0), None)
-        else: b = C03.build(dict(t='p2tr-script-ctrl', idx=0, csize=0), None)
+        else: b = C03.build(dict(t='p2tr-script-ctrl', idx=0, csize=int(ob['mut'][4:])), None)
         tx = list(b['tx']); txin = list(b['txin'])
         def patch(seq, old, new):
             for i in range(len(seq) - len(old) + 1):
